@@ -1,4 +1,5 @@
 import RoaringModel.Bitmap
+import RoaringModel.Iter
 /-!
 # `impl Debug for RoaringBitmap` (bitmap/fmt.rs)
 
@@ -13,6 +14,36 @@ def debugFmt (b : Bitmap) : Option String :=
   if len b < 16 then
     some ("RoaringBitmap<[" ++ ", ".intercalate ((elems b).map toString) ++ "]>")
   else
+    match min? b, max? b with
+    | some lo, some hi => some s!"RoaringBitmap<{len b} values between {lo} and {hi}>"
+    | _, _ => none
+
+/-! ### Mirrored form (fidelity audit)
+
+`debugFmt` lists the abstraction `elems b`; the Rust lists `self.iter().collect::<Vec<u32>>()`, i.e. whatever the
+iterator yields.  `debugFmtM` runs the mirrored iterator (`Iter.lean`); it is what the driver executes;
+`Lemmas/FidelityFmt.lean` proves `debugFmtM b = debugFmt b` for every `Bitmap.WF` value. -/
+
+/-- `iter.collect::<Vec<u32>>()`: `Vec::from_iter` (`SpecFromIterNested` + `extend_desugared`; the bitmap iterators
+    are not `TrustedLen`) drives the iterator with `next()` until the first `None`; `size_hint` only sizes the
+    allocation.  `fuel` bounds the number of yielded values. -/
+def collectFuel : Nat → Iter → List Nat
+  | 0, _ => []
+  | fuel + 1, it =>
+    match it.next with
+    | (_, none) => []
+    | (it', some x) => x :: collectFuel fuel it'
+
+/-- a `u32` cursor yields at most `2^32` values -/
+def collectFuelMax : Nat := 4294967296 + 1
+
+/-- fmt.rs:9 `fmt` (non-alternate `{:?}`; the inner `{:?}` of `write!` does not inherit `{:#?}`) -/
+def debugFmtM (b : Bitmap) : Option String :=
+  if len b < 16 then                                    -- :10 `self.len() < 16`
+    -- :11 `self.iter().collect::<Vec<u32>>()`
+    some ("RoaringBitmap<[" ++ ", ".intercalate ((collectFuel collectFuelMax (iter b)).map toString) ++ "]>")
+  else
+    -- :13-19 `self.len()`, `self.min().unwrap()`, `self.max().unwrap()`
     match min? b, max? b with
     | some lo, some hi => some s!"RoaringBitmap<{len b} values between {lo} and {hi}>"
     | _, _ => none
